@@ -49,6 +49,17 @@ fn real_main() -> i32 {
                 return 2;
             };
             let ctx = Ctx::new(&id, tier, seed);
+            // last-resort watchdog: a subject call that never returns must not hang the check forever
+            // (the per-property watchdog of C04 reports hangs as violations; this one only terminates)
+            let limit = ctx.deadline + std::time::Duration::from_secs(120);
+            std::thread::spawn(move || loop {
+                std::thread::sleep(std::time::Duration::from_secs(2));
+                if std::time::Instant::now() > limit {
+                    eprintln!("ENGINE-ERROR: the exploration did not finish within its time cap plus 120 s (a subject call may be hanging); this is a machinery exit, not a verdict");
+                    cleanup_scratch();
+                    std::process::exit(2);
+                }
+            });
             let fin = run(&ctx);
             finish(&ctx, fin)
         }
